@@ -118,6 +118,7 @@ QKey(q) ==
     [] q.kind = "marg"   -> IF Region(q) = 0..N - 1 THEN <<"psi-marg", 0>> ELSE <<"rdm-marg", Mask(Region(q))>>
     [] q.kind = "sample" -> <<"cond", 0>>
     [] q.kind = "uni"    -> <<"none", 0>>
+    [] OTHER             -> <<"none", 0>>      \* kinds that exist only in the replays (sampleprob, gbg)
 \* the value the implementation returns from the snapshot e = [ver, sv (= Run(N, tn)), tn, gs]
 ConeState(e, where) == IF ConeAll(e, where) THEN e.sv ELSE Run(N, ConeGates(e, where))
 QImpl(q, e) ==
@@ -147,8 +148,20 @@ Logical(v, pm) ==
 
 (* ------------------------------ actions ------------------------------------ *)
 Me == [gates |-> gates, reg |-> reg, tn |-> tn, tnv |-> tnv, store |-> store, sng |-> sng, ver |-> ver, perm |-> perm, phys |-> phys]
+\* Per-action coverage.  TLC's own -coverage builds a cost tree that expands every operator application of the
+\* ring arithmetic in place (it does not fit in memory for this specification), so the actions count themselves
+\* in TLC registers (one set per worker) and report when a counter reaches a power of ten.
+ActNo(op) == CASE op = "gate" -> 1 [] op = "reject" -> 2 [] op = "setp" -> 3 [] op = "updp" -> 4 [] op = "copy" -> 5
+               [] op = "switch" -> 6 [] op = "query" -> 7 [] op = "query-cached" -> 8 [] op = "query-cone" -> 9
+Tick(op) == LET k == ActNo(op)
+                c == TLCGet(k) + 1
+            IN  /\ TLCSet(k, c)
+                /\ (c \in {1, 10, 100, 1000, 10000, 100000, 1000000} => PrintT(<<"QVACT", op, c>>))
+ASSUME \A k \in 1..9 : TLCSet(k, 0)
 Bump(a) == /\ depth < MaxDepth /\ depth' = depth + 1 /\ act' = a /\ fam' = "none"
            /\ hist' = IF Record THEN Append(hist, a) ELSE hist
+           /\ IF Record THEN TRUE ELSE Tick(a.op)
+           /\ IF Record \/ ~rej' THEN TRUE ELSE Tick("reject")
 
 ParamCtl(g) == g.par /\ g.c # <<>>            \* PArray has no reshape: AttributeError before anything is touched
 
@@ -265,6 +278,9 @@ QueryExact(q) ==
      /\ sng' = IF key[1] = "none" THEN sng ELSE Len(gates)
      /\ store' = IF key[1] = "none" THEN store ELSE IF cached THEN store0 ELSE (key :> e) @@ store0
      /\ fresh' = (e.ver = ver)
+     /\ IF Record \/ ~cached THEN TRUE ELSE Tick("query-cached")
+     /\ IF Record \/ ~(q.kind \in {"ptr", "expec", "marg"} /\ Region(q) # 0..N - 1 /\ ~ConeAll(e, Region(q))) THEN TRUE
+        ELSE Tick("query-cone")
      \* (when the snapshot is the current history and no gate is dropped by the cone the two sides are the
      \*  same expression: not evaluated twice)
      /\ qok' = IF Record THEN TRUE
@@ -294,24 +310,30 @@ GateFam(g) == IF g.c # <<>> THEN "ctl" ELSE IF g.name \in RawNames1 \cup RawName
               ELSE IF g.par THEN "par" ELSE IF ParamArity(g.name) > 0 THEN "ang"
               ELSE IF g.name \in {"SWAP", "IDEN"} THEN "spc" ELSE IF Len(g.q) = 1 THEN "c1"
               ELSE IF Len(g.q) = 2 THEN "c2" ELSE "c3"
-Fams == {"c1", "c2", "c3", "ang", "par", "ctl", "raw", "spc", "query", "setp", "updp", "copy"}
+QFam(q) == "q:" \o q.kind
+Fams == {"c1", "c2", "c3", "ang", "par", "ctl", "raw", "spc", "setp", "setp2", "updp", "copy"}
+        \cup {QFam(q) : q \in Queries}
 
 ApplyGateA    == \E g \in Gates : (fam = "none" \/ fam = GateFam(g)) /\ ApplyGate(g)
-SetParamsA    == (fam \in {"none", "setp"}) /\ \E i \in DOMAIN gates : gates[i].par /\ \E p \in NewParams[gates[i].name] : SetParams(i, p)
+SetParamsA    == (fam \in {"none", "setp", "setp2"}) /\ \E i \in DOMAIN gates : gates[i].par /\ \E p \in NewParams[gates[i].name] : SetParams(i, p)
 UpdateParamsA == (fam \in {"none", "updp"}) /\ UpdateParams
 CopyA         == (fam \in {"none", "copy"}) /\ Copy
 SwitchA       == (fam \in {"none", "copy"}) /\ Switch
-QueryA        == (fam \in {"none", "query"}) /\ \E q \in Queries : Query(q)
+QueryA        == \E q \in Queries : (fam = "none" \/ fam = QFam(q)) /\ Query(q)
 Step == ApplyGateA \/ SetParamsA \/ UpdateParamsA \/ CopyA \/ SwitchA \/ QueryA
 \* behaviour generation draws the kind of the next action first, so that the kinds are balanced
 ChooseFam == /\ Record /\ fam = "none" /\ depth < MaxDepth /\ \E f \in Fams : fam' = f
              /\ UNCHANGED <<gates, reg, tn, tnv, store, sng, ver, perm, phys, other, rej, qok, fresh, depth, act, hist>>
-GiveUp == /\ Record /\ fam # "none" /\ ~ENABLED Step /\ fam' = "none"
+GiveUp == /\ Record /\ fam \notin {"none", "done"} /\ ~ENABLED Step /\ fam' = "none"
           /\ UNCHANGED <<gates, reg, tn, tnv, store, sng, ver, perm, phys, other, rej, qok, fresh, depth, act, hist>>
-Next == IF Record THEN (ChooseFam \/ (fam # "none" /\ Step) \/ GiveUp) ELSE Step
+\* (the simulator evaluates invariants on every candidate successor: the behaviour is emitted from the single
+\*  successor of a state that was really reached at the depth bound)
+Finish == /\ Record /\ depth = MaxDepth /\ fam = "none" /\ fam' = "done"
+          /\ UNCHANGED <<gates, reg, tn, tnv, store, sng, ver, perm, phys, other, rej, qok, fresh, depth, act, hist>>
+Next == IF Record THEN (ChooseFam \/ (fam \notin {"none", "done"} /\ Step) \/ GiveUp \/ Finish) ELSE Step
 Spec == Init /\ [][Next]_vars
 
-EmitJson == (Record /\ depth = MaxDepth) => PrintT(<<"QVJSON", ToJson(hist)>>)
+EmitJson == (Record /\ fam = "done") => PrintT(<<"QVJSON", ToJson(hist)>>)
 
 (* ------------------------------ properties --------------------------------- *)
 \* the alphabet is well formed (unitarity of the whole vocabulary is checked by C07_Vocab)
